@@ -264,8 +264,10 @@ func Go(site string, fn func()) {
 	t := &task{id: s.next, name: site, wake: make(chan struct{}), kill: make(chan struct{}), site: "spawn"}
 	s.tasks = append(s.tasks, t)
 	s.unlock()
-	hide()
+	// The go statement itself stays visible to the race detector: the
+	// spawn edge parent -> child is part of the program's happens-before.
 	go s.root(t, fn)
+	hide()
 	select {
 	case s.sig <- struct{}{}:
 	default:
